@@ -185,6 +185,11 @@ func checkAllowedByAuthEvents(
 							eventsByID[e.EventID()] = nil
 						}
 					}
+					// If the provider answered with other events only, remember that the one we
+					// asked for is missing: otherwise we would ask for it again forever.
+					if _, got := eventsByID[ae]; !got {
+						eventsByID[ae] = nil
+					}
 				} else {
 					// It claims to have not returned an event - put a nil into the
 					// eventsByID map instead. This signals that we tried to retrieve
